@@ -2,6 +2,7 @@ import MosnVerif.Lemmas.Updates
 import MosnVerif.Lemmas.UpdatesRm
 import MosnVerif.Lemmas.UpdatesMode
 import MosnVerif.Lemmas.DumpScript
+import MosnVerif.Lemmas.RouterLocksConc
 /-!
 # C12 — runtime updates are coherent and reproducible from the dumped config (property theorems only)
 
@@ -577,6 +578,65 @@ theorem spec_dump_holds_on_model (items : List Item) :
 
 end dump
 
+/-! ## concurrent mutators of one router: the LOCK STRUCTURE of `routers_manager.go`
+
+`Gen/RouterLocks`: every mutator as a step program in source order (regenerated): where `rw.mux` (read / write) and `rm.updateMux` are
+taken and released, and between which of them the wrapper is read, the live table modified, the configuration recorded.
+`Model/RouterLocks`: any number of calls, one thread each, run their programs under an arbitrary schedule; the wrapper holds
+pointers (table object modified in place, configuration object modified in place and copied by `SetRouter`). -/
+section locks
+open MosnVerif.Model.RouterLocks MosnVerif.Gen.RouterLocks
+
+/-- the regenerated lock structure: every mutator of an existing router holds the wrapper's WRITE lock from before its first read
+of the wrapper until after the configuration is recorded (everything outside is the map lookup, `NewRouters` of the call's own
+argument, or the manager mutex); the first `AddOrUpdateRouters` of a name publishes the wrapper and records its configuration
+under the manager mutex and the new wrapper's write lock; the readers of the request path take the read lock. -/
+theorem router_locks_discipline :
+    disciplined addOrUpdateRouters_found = true ∧ disciplined addRoute_found = true ∧ disciplined removeAllRoutes_found = true ∧
+    disciplined addRoute_absent = true ∧ disciplined removeAllRoutes_absent = true ∧ disciplined getRouterWrapperByName_found = true ∧
+    firstAddOk addOrUpdateRouters_absent = true ∧ readerOk getRouters = true ∧ readerOk getRoutersConfig = true := by decide
+
+/-- **mutators_serializable** (generic): for every step semantics whose outside steps are local, every family of calls whose
+programs have the lock discipline (any number of concurrent calls), every initial state and EVERY schedule: whenever nobody holds
+the write lock, the shared state is the one the calls that went through their critical section leave when they run ONE AFTER THE
+OTHER in the order `done` in which they released the lock (a list without repetition); a finished call that is not in it
+changes nothing when run alone. -/
+theorem mutators_serializable {S L : Type} (exec : Exec S L) (hloc : ∀ a, localStep a = true → LocalStep exec a)
+    (calls : Nat → Call L) (s0 : S) (hd : ∀ t, disciplined (calls t).prog = true) (sched : List Nat) :
+    (runSched exec (initConf calls s0) sched).done.Nodup ∧
+    ((runSched exec (initConf calls s0) sched).writer = none →
+      (runSched exec (initConf calls s0) sched).shared = serialS exec calls (runSched exec (initConf calls s0) sched).done s0) ∧
+    (∀ t, ((runSched exec (initConf calls s0) sched).threads t).todo = [] → t ∉ (runSched exec (initConf calls s0) sched).done →
+      Noop exec calls t) :=
+  serializable exec hloc calls s0 hd sched
+
+/-- **concurrent_coherent_routes**: router `n` exists in a coherent state `st` (e.g. after any history: `inv_run`); ANY number of
+concurrent `AddOrUpdateRouters` / `AddRoute` / `RemoveAllRoutes` calls for it (`ops t` = the call of thread `t`, valid or not) run
+the REGENERATED programs under ANY schedule. Whenever nobody holds the wrapper's write lock: there is an order of distinct calls
+such that the router's live table, wrapper configuration, stored configuration and remembered path are exactly those of the
+sequential history `order` of `Model/Updates` — and the live table is the one `NewRouters` builds from the stored configuration
+(`coherent_routes` for concurrent callers). -/
+theorem concurrent_coherent_routes (o : Oracle) (st : State) (hI : Inv o st) (n : String) (w : Wrapper)
+    (hw : st.wrappers n = some w) (ops : Nat → MOp) (hn : ∀ t, named n (ops t)) (sched : List Nat)
+    (hidle : (runSched (exec o) (initConf (callOf ops) (sharedOf st n w)) sched).writer = none) :
+    ∃ order : List Nat, order.Nodup ∧ ∃ w', (runFrom o st (order.map (fun t => toOp n (ops t)))).wrappers n = some w' ∧
+      view (runSched (exec o) (initConf (callOf ops) (sharedOf st n w)) sched).shared =
+        viewOf (runFrom o st (order.map (fun t => toOp n (ops t)))) n w' ∧
+      coherentView o (view (runSched (exec o) (initConf (callOf ops) (sharedOf st n w)) sched).shared) = true := by
+  have hd : ∀ t, disciplined (callOf ops t).prog = true := by
+    intro t
+    unfold callOf
+    cases ops t <;> simp only <;> decide
+  obtain ⟨hnd, hser, _⟩ := serializable (exec o) (exec_local o) (callOf ops) (sharedOf st n w) hd sched
+  obtain ⟨w', hw', hv⟩ := serial_view o n ops hn (runSched (exec o) (initConf (callOf ops) (sharedOf st n w)) sched).done
+    st hI w hw (sharedOf st n w) (view_sharedOf st n w)
+  refine ⟨_, hnd, w', hw', ?_, ?_⟩
+  · rw [hser hidle]; exact hv
+  · rw [hser hidle, hv]
+    exact coherent_viewOf o _ (inv_runFrom _ hI) n w' hw'
+
+end locks
+
 /-! ## non-vacuity: concrete histories exercising the hypotheses -/
 section examples
 /-- a simple concrete oracle (first virtual host listing the domain); the driver's `exOracle` works on lower-cased strings,
@@ -650,5 +710,43 @@ example : (run exOracle [.addOrUpdateCluster "c" 1 [], .updateHosts "c" [h2]]).c
     rebuildClusters (dump (run exOracle [.addOrUpdateCluster "c" 1 [], .updateHosts "c" [h2]])) "c" = some ⟨1, [{ h2 with weight := 1 }]⟩ := by
   decide
 end examples
+
+/-! ## the read-lock-then-write-lock shape loses coherence (machine-checked witness) -/
+section lockWitness
+open MosnVerif.Model.RouterLocks MosnVerif.Gen.RouterLocks
+
+def cfgA : RouterCfg := { name := "r", vhosts := [⟨"v1", ["a.b"], [rt "x"]⟩] }
+def cfgB : RouterCfg := { name := "r", vhosts := [⟨"v1", ["a.b"], [rt "u"]⟩] }
+def stA : State := run exOracle [.addOrUpdateRouters cfgA]
+def wA : Wrapper := ⟨build exOracle cfgA, cfgA⟩
+/-- thread 0: `AddRoute` with the read-then-write shape; thread 1: a complete update by `cfgB` (regenerated program) -/
+def badCalls : Nat → Call Local := fun t =>
+  if t = 0 then ⟨addRouteReadThenWrite, { op := .addRoute "a.b" (rt "y"), me := 1 }⟩
+  else ⟨addOrUpdateRouters_found, { op := .update cfgB, me := t + 1 }⟩
+/-- `AddRoute` reads the wrapper (read lock), inserts the route unlocked; the complete update runs; `AddRoute` writes back -/
+def badSched : List Nat := List.replicate 8 0 ++ List.replicate 9 1 ++ List.replicate 6 0
+
+/-- **read_then_write_lock_incoherent** (negative witness, machine-checked): `AddRoute` reading table and configuration under
+the READ lock, inserting the route unlocked and taking the write lock only to record the configuration does NOT have the
+discipline, and the schedule "AddRoute reads and inserts; a complete `AddOrUpdateRouters` of the same router runs; AddRoute writes
+back" ends with every call finished, no lock held, the live table being the UPDATED one (route `u`) while the stored
+configuration is the OLD one plus the added route (`x`, `y`): live ≠ build (stored). The same two calls with the regenerated
+`AddRoute` under the same schedule stay coherent. -/
+theorem read_then_write_lock_incoherent :
+    stA.wrappers "r" = some wA ∧ disciplined addRouteReadThenWrite = false ∧
+    (let c := runSched (exec exOracle) (initConf badCalls (sharedOf stA "r" wA)) badSched
+     c.writer = none ∧ c.readers = [] ∧ c.mholder = none ∧ (c.threads 0).todo = [] ∧ (c.threads 1).todo = [] ∧
+     ((view c.shared).live.map (fun t => t.vhs.map (fun v => v.routes.map (·.id)))) = some [["u"]] ∧
+     (view c.shared).stored.vhosts.map (fun v => v.routes.map (·.id)) = [["x", "y"]] ∧
+     coherentView exOracle (view c.shared) = false) ∧
+    (let c := runSched (exec exOracle) (initConf (callOf (fun t => if t = 0 then .addRoute "a.b" (rt "y") else .update cfgB))
+        (sharedOf stA "r" wA)) badSched
+     coherentView exOracle (view c.shared) = true) := by decide
+
+-- concurrent_coherent_routes' hypotheses: an existing router in a reachable state, calls that name it
+example : Inv exOracle stA ∧ stA.wrappers "r" = some wA ∧
+    (∀ t, named "r" ((fun t => if t = 0 then MOp.addRoute "a.b" (rt "y") else MOp.update cfgB) t)) :=
+  ⟨inv_run _ _, by decide, fun t => by by_cases h : t = 0 <;> simp [h, named, cfgB]⟩
+end lockWitness
 
 end MosnVerif.Props.C12
